@@ -19,10 +19,43 @@
                 invariant
                     crate::is_tail(bytes@, bytes0), crate::frame::tail_base(bytes0), bytes@.len() <= bytes0.len(),
                     curr_len <= usize::MAX,
+        //@ tag tags.bookkeeping C13
+                    actual_tags@ =~= seen,
+                    required_tags@ =~= set![170u16, 12u16].difference(seen),
+        //@ tag tags.loop.decreases C02
                 decreases bytes@.len() + (if curr_len != bytes@.len() { 1nat } else { 0nat }),
         //@ entry
             let ghost bytes0 = bytes@;
+            let ghost mut seen: Set<u16> = Set::<u16>::empty();
             proof { lemma_slice_len_le_isize_max(bytes); crate::frame::lemma_tail_base(bytes0); }
+        //@ before (date,bytes)=<
+        //@ tag tags.no_second_dispatch.date C13
+            proof { assert(!seen.contains(170u16)); seen = seen.insert(170u16) ; }
+        //@ before returnErr(zvt_builder::ZVTError::DuplicateTag(zvt_builder::Tag(170u16)
+        //@ tag tags.duplicate_error_is_true.date C13
+            proof { assert(seen.contains(170u16)) ; }
+        //@ before (time,bytes)=<
+        //@ tag tags.no_second_dispatch.time C13
+            proof { assert(!seen.contains(12u16)); seen = seen.insert(12u16) ; }
+        //@ before returnErr(zvt_builder::ZVTError::DuplicateTag(zvt_builder::Tag(12u16)
+        //@ tag tags.duplicate_error_is_true.time C13
+            proof { assert(seen.contains(12u16)) ; }
+        //@ before letmutas_vec
+            let ghost req_left = required_tags@;
+        //@ before returnErr(zvt_builder::ZVTError::MissingRequiredTags
+        //@ tag tags.missing_names_all C13
+            proof {
+                assert(req_left =~= set![170u16, 12u16].difference(seen));
+                assert forall|i: int| 0 <= i < as_vec@.len() implies set![170u16, 12u16].contains((#[trigger] as_vec@[i]).0) && !seen.contains(as_vec@[i].0) by {
+                    assert(req_left.contains(as_vec@[i].0));
+                }
+                assert forall|t: u16| set![170u16, 12u16].contains(t) && !seen.contains(t) implies exists|i: int| 0 <= i < as_vec@.len() && (#[trigger] as_vec@[i]).0 == t by {
+                    assert(req_left.contains(t));
+                }
+            }
+        //@ tail
+        //@ tag tags.ok_only_if_all_mandatory C13
+            proof { assert(!set![170u16, 12u16].difference(seen).contains(170u16)); assert(!set![170u16, 12u16].difference(seen).contains(12u16)); assert(set![170u16, 12u16].subset_of(seen)); }
         //@ end
         proof fn law_dec_bounds(b: Seq<u8>) {}
         proof fn law_dec_frame(b: Seq<u8>, s: Seq<u8>) {}
@@ -57,10 +90,31 @@
                 invariant
                     crate::is_tail(bytes@, bytes0), crate::frame::tail_base(bytes0), bytes@.len() <= bytes0.len(),
                     curr_len <= usize::MAX,
+        //@ tag tags.bookkeeping C13
+                    actual_tags@ =~= seen,
+                    required_tags@ =~= Set::<u16>::empty().difference(seen),
+        //@ tag tags.loop.decreases C02
                 decreases bytes@.len() + (if curr_len != bytes@.len() { 1nat } else { 0nat }),
         //@ entry
             let ghost bytes0 = bytes@;
+            let ghost mut seen: Set<u16> = Set::<u16>::empty();
             proof { lemma_slice_len_le_isize_max(bytes); crate::frame::lemma_tail_base(bytes0); }
+        //@ before letmutas_vec
+            let ghost req_left = required_tags@;
+        //@ before returnErr(zvt_builder::ZVTError::MissingRequiredTags
+        //@ tag tags.missing_names_all C13
+            proof {
+                assert(req_left =~= Set::<u16>::empty().difference(seen));
+                assert forall|i: int| 0 <= i < as_vec@.len() implies Set::<u16>::empty().contains((#[trigger] as_vec@[i]).0) && !seen.contains(as_vec@[i].0) by {
+                    assert(req_left.contains(as_vec@[i].0));
+                }
+                assert forall|t: u16| Set::<u16>::empty().contains(t) && !seen.contains(t) implies exists|i: int| 0 <= i < as_vec@.len() && (#[trigger] as_vec@[i]).0 == t by {
+                    assert(req_left.contains(t));
+                }
+            }
+        //@ tail
+        //@ tag tags.ok_only_if_all_mandatory C13
+            proof { assert(Set::<u16>::empty().subset_of(seen)); }
         //@ end
         proof fn law_dec_bounds(b: Seq<u8>) {}
         proof fn law_dec_frame(b: Seq<u8>, s: Seq<u8>) {}
@@ -88,10 +142,31 @@
                 invariant
                     crate::is_tail(bytes@, bytes0), crate::frame::tail_base(bytes0), bytes@.len() <= bytes0.len(),
                     curr_len <= usize::MAX,
+        //@ tag tags.bookkeeping C13
+                    actual_tags@ =~= seen,
+                    required_tags@ =~= Set::<u16>::empty().difference(seen),
+        //@ tag tags.loop.decreases C02
                 decreases bytes@.len() + (if curr_len != bytes@.len() { 1nat } else { 0nat }),
         //@ entry
             let ghost bytes0 = bytes@;
+            let ghost mut seen: Set<u16> = Set::<u16>::empty();
             proof { lemma_slice_len_le_isize_max(bytes); crate::frame::lemma_tail_base(bytes0); }
+        //@ before letmutas_vec
+            let ghost req_left = required_tags@;
+        //@ before returnErr(zvt_builder::ZVTError::MissingRequiredTags
+        //@ tag tags.missing_names_all C13
+            proof {
+                assert(req_left =~= Set::<u16>::empty().difference(seen));
+                assert forall|i: int| 0 <= i < as_vec@.len() implies Set::<u16>::empty().contains((#[trigger] as_vec@[i]).0) && !seen.contains(as_vec@[i].0) by {
+                    assert(req_left.contains(as_vec@[i].0));
+                }
+                assert forall|t: u16| Set::<u16>::empty().contains(t) && !seen.contains(t) implies exists|i: int| 0 <= i < as_vec@.len() && (#[trigger] as_vec@[i]).0 == t by {
+                    assert(req_left.contains(t));
+                }
+            }
+        //@ tail
+        //@ tag tags.ok_only_if_all_mandatory C13
+            proof { assert(Set::<u16>::empty().subset_of(seen)); }
         //@ end
         proof fn law_dec_bounds(b: Seq<u8>) {}
         proof fn law_dec_frame(b: Seq<u8>, s: Seq<u8>) {}
@@ -119,10 +194,157 @@
                 invariant
                     crate::is_tail(bytes@, bytes0), crate::frame::tail_base(bytes0), bytes@.len() <= bytes0.len(),
                     curr_len <= usize::MAX,
+        //@ tag tags.bookkeeping C13
+                    actual_tags@ =~= seen,
+                    required_tags@ =~= Set::<u16>::empty().difference(seen),
+        //@ tag tags.loop.decreases C02
                 decreases bytes@.len() + (if curr_len != bytes@.len() { 1nat } else { 0nat }),
         //@ entry
             let ghost bytes0 = bytes@;
+            let ghost mut seen: Set<u16> = Set::<u16>::empty();
             proof { lemma_slice_len_le_isize_max(bytes); crate::frame::lemma_tail_base(bytes0); }
+        //@ before (amount,bytes)=<
+        //@ tag tags.no_second_dispatch.amount C13
+            proof { assert(!seen.contains(4u16)); seen = seen.insert(4u16) ; }
+        //@ before returnErr(zvt_builder::ZVTError::DuplicateTag(zvt_builder::Tag(4u16)
+        //@ tag tags.duplicate_error_is_true.amount C13
+            proof { assert(seen.contains(4u16)) ; }
+        //@ before (trace_number,bytes)=<
+        //@ tag tags.no_second_dispatch.trace_number C13
+            proof { assert(!seen.contains(11u16)); seen = seen.insert(11u16) ; }
+        //@ before returnErr(zvt_builder::ZVTError::DuplicateTag(zvt_builder::Tag(11u16)
+        //@ tag tags.duplicate_error_is_true.trace_number C13
+            proof { assert(seen.contains(11u16)) ; }
+        //@ before (time,bytes)=<
+        //@ tag tags.no_second_dispatch.time C13
+            proof { assert(!seen.contains(12u16)); seen = seen.insert(12u16) ; }
+        //@ before returnErr(zvt_builder::ZVTError::DuplicateTag(zvt_builder::Tag(12u16)
+        //@ tag tags.duplicate_error_is_true.time C13
+            proof { assert(seen.contains(12u16)) ; }
+        //@ before (date,bytes)=<
+        //@ tag tags.no_second_dispatch.date C13
+            proof { assert(!seen.contains(13u16)); seen = seen.insert(13u16) ; }
+        //@ before returnErr(zvt_builder::ZVTError::DuplicateTag(zvt_builder::Tag(13u16)
+        //@ tag tags.duplicate_error_is_true.date C13
+            proof { assert(seen.contains(13u16)) ; }
+        //@ before (expiry_date,bytes)=<
+        //@ tag tags.no_second_dispatch.expiry_date C13
+            proof { assert(!seen.contains(14u16)); seen = seen.insert(14u16) ; }
+        //@ before returnErr(zvt_builder::ZVTError::DuplicateTag(zvt_builder::Tag(14u16)
+        //@ tag tags.duplicate_error_is_true.expiry_date C13
+            proof { assert(seen.contains(14u16)) ; }
+        //@ before (card_sequence_number,bytes)=<
+        //@ tag tags.no_second_dispatch.card_sequence_number C13
+            proof { assert(!seen.contains(23u16)); seen = seen.insert(23u16) ; }
+        //@ before returnErr(zvt_builder::ZVTError::DuplicateTag(zvt_builder::Tag(23u16)
+        //@ tag tags.duplicate_error_is_true.card_sequence_number C13
+            proof { assert(seen.contains(23u16)) ; }
+        //@ before (card_type,bytes)=<
+        //@ tag tags.no_second_dispatch.card_type C13
+            proof { assert(!seen.contains(25u16)); seen = seen.insert(25u16) ; }
+        //@ before returnErr(zvt_builder::ZVTError::DuplicateTag(zvt_builder::Tag(25u16)
+        //@ tag tags.duplicate_error_is_true.card_type C13
+            proof { assert(seen.contains(25u16)) ; }
+        //@ before (card_number,bytes)=<
+        //@ tag tags.no_second_dispatch.card_number C13
+            proof { assert(!seen.contains(34u16)); seen = seen.insert(34u16) ; }
+        //@ before returnErr(zvt_builder::ZVTError::DuplicateTag(zvt_builder::Tag(34u16)
+        //@ tag tags.duplicate_error_is_true.card_number C13
+            proof { assert(seen.contains(34u16)) ; }
+        //@ before (track_2_data,bytes)=<
+        //@ tag tags.no_second_dispatch.track_2_data C13
+            proof { assert(!seen.contains(35u16)); seen = seen.insert(35u16) ; }
+        //@ before returnErr(zvt_builder::ZVTError::DuplicateTag(zvt_builder::Tag(35u16)
+        //@ tag tags.duplicate_error_is_true.track_2_data C13
+            proof { assert(seen.contains(35u16)) ; }
+        //@ before (result_code,bytes)=<
+        //@ tag tags.no_second_dispatch.result_code C13
+            proof { assert(!seen.contains(39u16)); seen = seen.insert(39u16) ; }
+        //@ before returnErr(zvt_builder::ZVTError::DuplicateTag(zvt_builder::Tag(39u16)
+        //@ tag tags.duplicate_error_is_true.result_code C13
+            proof { assert(seen.contains(39u16)) ; }
+        //@ before (terminal_id,bytes)=<
+        //@ tag tags.no_second_dispatch.terminal_id C13
+            proof { assert(!seen.contains(41u16)); seen = seen.insert(41u16) ; }
+        //@ before returnErr(zvt_builder::ZVTError::DuplicateTag(zvt_builder::Tag(41u16)
+        //@ tag tags.duplicate_error_is_true.terminal_id C13
+            proof { assert(seen.contains(41u16)) ; }
+        //@ before (vu_number,bytes)=<
+        //@ tag tags.no_second_dispatch.vu_number C13
+            proof { assert(!seen.contains(42u16)); seen = seen.insert(42u16) ; }
+        //@ before returnErr(zvt_builder::ZVTError::DuplicateTag(zvt_builder::Tag(42u16)
+        //@ tag tags.duplicate_error_is_true.vu_number C13
+            proof { assert(seen.contains(42u16)) ; }
+        //@ before (aid_authorization_attribute,bytes)=<
+        //@ tag tags.no_second_dispatch.aid_authorization_attribute C13
+            proof { assert(!seen.contains(59u16)); seen = seen.insert(59u16) ; }
+        //@ before returnErr(zvt_builder::ZVTError::DuplicateTag(zvt_builder::Tag(59u16)
+        //@ tag tags.duplicate_error_is_true.aid_authorization_attribute C13
+            proof { assert(seen.contains(59u16)) ; }
+        //@ before (additional_text,bytes)=<
+        //@ tag tags.no_second_dispatch.additional_text C13
+            proof { assert(!seen.contains(60u16)); seen = seen.insert(60u16) ; }
+        //@ before returnErr(zvt_builder::ZVTError::DuplicateTag(zvt_builder::Tag(60u16)
+        //@ tag tags.duplicate_error_is_true.additional_text C13
+            proof { assert(seen.contains(60u16)) ; }
+        //@ before (single_amounts,bytes)=<
+        //@ tag tags.no_second_dispatch.single_amounts C13
+            proof { assert(!seen.contains(96u16)); seen = seen.insert(96u16) ; }
+        //@ before returnErr(zvt_builder::ZVTError::DuplicateTag(zvt_builder::Tag(96u16)
+        //@ tag tags.duplicate_error_is_true.single_amounts C13
+            proof { assert(seen.contains(96u16)) ; }
+        //@ before (receipt_no,bytes)=<
+        //@ tag tags.no_second_dispatch.receipt_no C13
+            proof { assert(!seen.contains(135u16)); seen = seen.insert(135u16) ; }
+        //@ before returnErr(zvt_builder::ZVTError::DuplicateTag(zvt_builder::Tag(135u16)
+        //@ tag tags.duplicate_error_is_true.receipt_no C13
+            proof { assert(seen.contains(135u16)) ; }
+        //@ before (currency,bytes)=<
+        //@ tag tags.no_second_dispatch.currency C13
+            proof { assert(!seen.contains(73u16)); seen = seen.insert(73u16) ; }
+        //@ before returnErr(zvt_builder::ZVTError::DuplicateTag(zvt_builder::Tag(73u16)
+        //@ tag tags.duplicate_error_is_true.currency C13
+            proof { assert(seen.contains(73u16)) ; }
+        //@ before (zvt_card_type,bytes)=<
+        //@ tag tags.no_second_dispatch.zvt_card_type C13
+            proof { assert(!seen.contains(138u16)); seen = seen.insert(138u16) ; }
+        //@ before returnErr(zvt_builder::ZVTError::DuplicateTag(zvt_builder::Tag(138u16)
+        //@ tag tags.duplicate_error_is_true.zvt_card_type C13
+            proof { assert(seen.contains(138u16)) ; }
+        //@ before (card_name,bytes)=<
+        //@ tag tags.no_second_dispatch.card_name C13
+            proof { assert(!seen.contains(139u16)); seen = seen.insert(139u16) ; }
+        //@ before returnErr(zvt_builder::ZVTError::DuplicateTag(zvt_builder::Tag(139u16)
+        //@ tag tags.duplicate_error_is_true.card_name C13
+            proof { assert(seen.contains(139u16)) ; }
+        //@ before (zvt_card_type_id,bytes)=<
+        //@ tag tags.no_second_dispatch.zvt_card_type_id C13
+            proof { assert(!seen.contains(140u16)); seen = seen.insert(140u16) ; }
+        //@ before returnErr(zvt_builder::ZVTError::DuplicateTag(zvt_builder::Tag(140u16)
+        //@ tag tags.duplicate_error_is_true.zvt_card_type_id C13
+            proof { assert(seen.contains(140u16)) ; }
+        //@ before (tlv,bytes)=<
+        //@ tag tags.no_second_dispatch.tlv C13
+            proof { assert(!seen.contains(6u16)); seen = seen.insert(6u16) ; }
+        //@ before returnErr(zvt_builder::ZVTError::DuplicateTag(zvt_builder::Tag(6u16)
+        //@ tag tags.duplicate_error_is_true.tlv C13
+            proof { assert(seen.contains(6u16)) ; }
+        //@ before letmutas_vec
+            let ghost req_left = required_tags@;
+        //@ before returnErr(zvt_builder::ZVTError::MissingRequiredTags
+        //@ tag tags.missing_names_all C13
+            proof {
+                assert(req_left =~= Set::<u16>::empty().difference(seen));
+                assert forall|i: int| 0 <= i < as_vec@.len() implies Set::<u16>::empty().contains((#[trigger] as_vec@[i]).0) && !seen.contains(as_vec@[i].0) by {
+                    assert(req_left.contains(as_vec@[i].0));
+                }
+                assert forall|t: u16| Set::<u16>::empty().contains(t) && !seen.contains(t) implies exists|i: int| 0 <= i < as_vec@.len() && (#[trigger] as_vec@[i]).0 == t by {
+                    assert(req_left.contains(t));
+                }
+            }
+        //@ tail
+        //@ tag tags.ok_only_if_all_mandatory C13
+            proof { assert(Set::<u16>::empty().subset_of(seen)); }
         //@ end
         proof fn law_dec_bounds(b: Seq<u8>) {}
         proof fn law_dec_frame(b: Seq<u8>, s: Seq<u8>) {}
@@ -157,10 +379,31 @@
                 invariant
                     crate::is_tail(bytes@, bytes0), crate::frame::tail_base(bytes0), bytes@.len() <= bytes0.len(),
                     curr_len <= usize::MAX,
+        //@ tag tags.bookkeeping C13
+                    actual_tags@ =~= seen,
+                    required_tags@ =~= Set::<u16>::empty().difference(seen),
+        //@ tag tags.loop.decreases C02
                 decreases bytes@.len() + (if curr_len != bytes@.len() { 1nat } else { 0nat }),
         //@ entry
             let ghost bytes0 = bytes@;
+            let ghost mut seen: Set<u16> = Set::<u16>::empty();
             proof { lemma_slice_len_le_isize_max(bytes); crate::frame::lemma_tail_base(bytes0); }
+        //@ before letmutas_vec
+            let ghost req_left = required_tags@;
+        //@ before returnErr(zvt_builder::ZVTError::MissingRequiredTags
+        //@ tag tags.missing_names_all C13
+            proof {
+                assert(req_left =~= Set::<u16>::empty().difference(seen));
+                assert forall|i: int| 0 <= i < as_vec@.len() implies Set::<u16>::empty().contains((#[trigger] as_vec@[i]).0) && !seen.contains(as_vec@[i].0) by {
+                    assert(req_left.contains(as_vec@[i].0));
+                }
+                assert forall|t: u16| Set::<u16>::empty().contains(t) && !seen.contains(t) implies exists|i: int| 0 <= i < as_vec@.len() && (#[trigger] as_vec@[i]).0 == t by {
+                    assert(req_left.contains(t));
+                }
+            }
+        //@ tail
+        //@ tag tags.ok_only_if_all_mandatory C13
+            proof { assert(Set::<u16>::empty().subset_of(seen)); }
         //@ end
         proof fn law_dec_bounds(b: Seq<u8>) {}
         proof fn law_dec_frame(b: Seq<u8>, s: Seq<u8>) {}
@@ -195,10 +438,43 @@
                 invariant
                     crate::is_tail(bytes@, bytes0), crate::frame::tail_base(bytes0), bytes@.len() <= bytes0.len(),
                     curr_len <= usize::MAX,
+        //@ tag tags.bookkeeping C13
+                    actual_tags@ =~= seen,
+                    required_tags@ =~= Set::<u16>::empty().difference(seen),
+        //@ tag tags.loop.decreases C02
                 decreases bytes@.len() + (if curr_len != bytes@.len() { 1nat } else { 0nat }),
         //@ entry
             let ghost bytes0 = bytes@;
+            let ghost mut seen: Set<u16> = Set::<u16>::empty();
             proof { lemma_slice_len_le_isize_max(bytes); crate::frame::lemma_tail_base(bytes0); }
+        //@ before (service_byte,bytes)=<
+        //@ tag tags.no_second_dispatch.service_byte C13
+            proof { assert(!seen.contains(3u16)); seen = seen.insert(3u16) ; }
+        //@ before returnErr(zvt_builder::ZVTError::DuplicateTag(zvt_builder::Tag(3u16)
+        //@ tag tags.duplicate_error_is_true.service_byte C13
+            proof { assert(seen.contains(3u16)) ; }
+        //@ before (tlv,bytes)=<
+        //@ tag tags.no_second_dispatch.tlv C13
+            proof { assert(!seen.contains(6u16)); seen = seen.insert(6u16) ; }
+        //@ before returnErr(zvt_builder::ZVTError::DuplicateTag(zvt_builder::Tag(6u16)
+        //@ tag tags.duplicate_error_is_true.tlv C13
+            proof { assert(seen.contains(6u16)) ; }
+        //@ before letmutas_vec
+            let ghost req_left = required_tags@;
+        //@ before returnErr(zvt_builder::ZVTError::MissingRequiredTags
+        //@ tag tags.missing_names_all C13
+            proof {
+                assert(req_left =~= Set::<u16>::empty().difference(seen));
+                assert forall|i: int| 0 <= i < as_vec@.len() implies Set::<u16>::empty().contains((#[trigger] as_vec@[i]).0) && !seen.contains(as_vec@[i].0) by {
+                    assert(req_left.contains(as_vec@[i].0));
+                }
+                assert forall|t: u16| Set::<u16>::empty().contains(t) && !seen.contains(t) implies exists|i: int| 0 <= i < as_vec@.len() && (#[trigger] as_vec@[i]).0 == t by {
+                    assert(req_left.contains(t));
+                }
+            }
+        //@ tail
+        //@ tag tags.ok_only_if_all_mandatory C13
+            proof { assert(Set::<u16>::empty().subset_of(seen)); }
         //@ end
         proof fn law_dec_bounds(b: Seq<u8>) {}
         proof fn law_dec_frame(b: Seq<u8>, s: Seq<u8>) {}
@@ -233,10 +509,37 @@
                 invariant
                     crate::is_tail(bytes@, bytes0), crate::frame::tail_base(bytes0), bytes@.len() <= bytes0.len(),
                     curr_len <= usize::MAX,
+        //@ tag tags.bookkeeping C13
+                    actual_tags@ =~= seen,
+                    required_tags@ =~= Set::<u16>::empty().difference(seen),
+        //@ tag tags.loop.decreases C02
                 decreases bytes@.len() + (if curr_len != bytes@.len() { 1nat } else { 0nat }),
         //@ entry
             let ghost bytes0 = bytes@;
+            let ghost mut seen: Set<u16> = Set::<u16>::empty();
             proof { lemma_slice_len_le_isize_max(bytes); crate::frame::lemma_tail_base(bytes0); }
+        //@ before (tlv,bytes)=<
+        //@ tag tags.no_second_dispatch.tlv C13
+            proof { assert(!seen.contains(6u16)); seen = seen.insert(6u16) ; }
+        //@ before returnErr(zvt_builder::ZVTError::DuplicateTag(zvt_builder::Tag(6u16)
+        //@ tag tags.duplicate_error_is_true.tlv C13
+            proof { assert(seen.contains(6u16)) ; }
+        //@ before letmutas_vec
+            let ghost req_left = required_tags@;
+        //@ before returnErr(zvt_builder::ZVTError::MissingRequiredTags
+        //@ tag tags.missing_names_all C13
+            proof {
+                assert(req_left =~= Set::<u16>::empty().difference(seen));
+                assert forall|i: int| 0 <= i < as_vec@.len() implies Set::<u16>::empty().contains((#[trigger] as_vec@[i]).0) && !seen.contains(as_vec@[i].0) by {
+                    assert(req_left.contains(as_vec@[i].0));
+                }
+                assert forall|t: u16| Set::<u16>::empty().contains(t) && !seen.contains(t) implies exists|i: int| 0 <= i < as_vec@.len() && (#[trigger] as_vec@[i]).0 == t by {
+                    assert(req_left.contains(t));
+                }
+            }
+        //@ tail
+        //@ tag tags.ok_only_if_all_mandatory C13
+            proof { assert(Set::<u16>::empty().subset_of(seen)); }
         //@ end
         proof fn law_dec_bounds(b: Seq<u8>) {}
         proof fn law_dec_frame(b: Seq<u8>, s: Seq<u8>) {}
@@ -271,10 +574,55 @@
                 invariant
                     crate::is_tail(bytes@, bytes0), crate::frame::tail_base(bytes0), bytes@.len() <= bytes0.len(),
                     curr_len <= usize::MAX,
+        //@ tag tags.bookkeeping C13
+                    actual_tags@ =~= seen,
+                    required_tags@ =~= Set::<u16>::empty().difference(seen),
+        //@ tag tags.loop.decreases C02
                 decreases bytes@.len() + (if curr_len != bytes@.len() { 1nat } else { 0nat }),
         //@ entry
             let ghost bytes0 = bytes@;
+            let ghost mut seen: Set<u16> = Set::<u16>::empty();
             proof { lemma_slice_len_le_isize_max(bytes); crate::frame::lemma_tail_base(bytes0); }
+        //@ before (result_code,bytes)=<
+        //@ tag tags.no_second_dispatch.result_code C13
+            proof { assert(!seen.contains(39u16)); seen = seen.insert(39u16) ; }
+        //@ before returnErr(zvt_builder::ZVTError::DuplicateTag(zvt_builder::Tag(39u16)
+        //@ tag tags.duplicate_error_is_true.result_code C13
+            proof { assert(seen.contains(39u16)) ; }
+        //@ before (status_byte,bytes)=<
+        //@ tag tags.no_second_dispatch.status_byte C13
+            proof { assert(!seen.contains(25u16)); seen = seen.insert(25u16) ; }
+        //@ before returnErr(zvt_builder::ZVTError::DuplicateTag(zvt_builder::Tag(25u16)
+        //@ tag tags.duplicate_error_is_true.status_byte C13
+            proof { assert(seen.contains(25u16)) ; }
+        //@ before (terminal_id,bytes)=<
+        //@ tag tags.no_second_dispatch.terminal_id C13
+            proof { assert(!seen.contains(41u16)); seen = seen.insert(41u16) ; }
+        //@ before returnErr(zvt_builder::ZVTError::DuplicateTag(zvt_builder::Tag(41u16)
+        //@ tag tags.duplicate_error_is_true.terminal_id C13
+            proof { assert(seen.contains(41u16)) ; }
+        //@ before (currency,bytes)=<
+        //@ tag tags.no_second_dispatch.currency C13
+            proof { assert(!seen.contains(73u16)); seen = seen.insert(73u16) ; }
+        //@ before returnErr(zvt_builder::ZVTError::DuplicateTag(zvt_builder::Tag(73u16)
+        //@ tag tags.duplicate_error_is_true.currency C13
+            proof { assert(seen.contains(73u16)) ; }
+        //@ before letmutas_vec
+            let ghost req_left = required_tags@;
+        //@ before returnErr(zvt_builder::ZVTError::MissingRequiredTags
+        //@ tag tags.missing_names_all C13
+            proof {
+                assert(req_left =~= Set::<u16>::empty().difference(seen));
+                assert forall|i: int| 0 <= i < as_vec@.len() implies Set::<u16>::empty().contains((#[trigger] as_vec@[i]).0) && !seen.contains(as_vec@[i].0) by {
+                    assert(req_left.contains(as_vec@[i].0));
+                }
+                assert forall|t: u16| Set::<u16>::empty().contains(t) && !seen.contains(t) implies exists|i: int| 0 <= i < as_vec@.len() && (#[trigger] as_vec@[i]).0 == t by {
+                    assert(req_left.contains(t));
+                }
+            }
+        //@ tail
+        //@ tag tags.ok_only_if_all_mandatory C13
+            proof { assert(Set::<u16>::empty().subset_of(seen)); }
         //@ end
         proof fn law_dec_bounds(b: Seq<u8>) {}
         proof fn law_dec_frame(b: Seq<u8>, s: Seq<u8>) {}
@@ -309,10 +657,37 @@
                 invariant
                     crate::is_tail(bytes@, bytes0), crate::frame::tail_base(bytes0), bytes@.len() <= bytes0.len(),
                     curr_len <= usize::MAX,
+        //@ tag tags.bookkeeping C13
+                    actual_tags@ =~= seen,
+                    required_tags@ =~= Set::<u16>::empty().difference(seen),
+        //@ tag tags.loop.decreases C02
                 decreases bytes@.len() + (if curr_len != bytes@.len() { 1nat } else { 0nat }),
         //@ entry
             let ghost bytes0 = bytes@;
+            let ghost mut seen: Set<u16> = Set::<u16>::empty();
             proof { lemma_slice_len_le_isize_max(bytes); crate::frame::lemma_tail_base(bytes0); }
+        //@ before (tlv,bytes)=<
+        //@ tag tags.no_second_dispatch.tlv C13
+            proof { assert(!seen.contains(6u16)); seen = seen.insert(6u16) ; }
+        //@ before returnErr(zvt_builder::ZVTError::DuplicateTag(zvt_builder::Tag(6u16)
+        //@ tag tags.duplicate_error_is_true.tlv C13
+            proof { assert(seen.contains(6u16)) ; }
+        //@ before letmutas_vec
+            let ghost req_left = required_tags@;
+        //@ before returnErr(zvt_builder::ZVTError::MissingRequiredTags
+        //@ tag tags.missing_names_all C13
+            proof {
+                assert(req_left =~= Set::<u16>::empty().difference(seen));
+                assert forall|i: int| 0 <= i < as_vec@.len() implies Set::<u16>::empty().contains((#[trigger] as_vec@[i]).0) && !seen.contains(as_vec@[i].0) by {
+                    assert(req_left.contains(as_vec@[i].0));
+                }
+                assert forall|t: u16| Set::<u16>::empty().contains(t) && !seen.contains(t) implies exists|i: int| 0 <= i < as_vec@.len() && (#[trigger] as_vec@[i]).0 == t by {
+                    assert(req_left.contains(t));
+                }
+            }
+        //@ tail
+        //@ tag tags.ok_only_if_all_mandatory C13
+            proof { assert(Set::<u16>::empty().subset_of(seen)); }
         //@ end
         proof fn law_dec_bounds(b: Seq<u8>) {}
         proof fn law_dec_frame(b: Seq<u8>, s: Seq<u8>) {}
@@ -347,10 +722,31 @@
                 invariant
                     crate::is_tail(bytes@, bytes0), crate::frame::tail_base(bytes0), bytes@.len() <= bytes0.len(),
                     curr_len <= usize::MAX,
+        //@ tag tags.bookkeeping C13
+                    actual_tags@ =~= seen,
+                    required_tags@ =~= Set::<u16>::empty().difference(seen),
+        //@ tag tags.loop.decreases C02
                 decreases bytes@.len() + (if curr_len != bytes@.len() { 1nat } else { 0nat }),
         //@ entry
             let ghost bytes0 = bytes@;
+            let ghost mut seen: Set<u16> = Set::<u16>::empty();
             proof { lemma_slice_len_le_isize_max(bytes); crate::frame::lemma_tail_base(bytes0); }
+        //@ before letmutas_vec
+            let ghost req_left = required_tags@;
+        //@ before returnErr(zvt_builder::ZVTError::MissingRequiredTags
+        //@ tag tags.missing_names_all C13
+            proof {
+                assert(req_left =~= Set::<u16>::empty().difference(seen));
+                assert forall|i: int| 0 <= i < as_vec@.len() implies Set::<u16>::empty().contains((#[trigger] as_vec@[i]).0) && !seen.contains(as_vec@[i].0) by {
+                    assert(req_left.contains(as_vec@[i].0));
+                }
+                assert forall|t: u16| Set::<u16>::empty().contains(t) && !seen.contains(t) implies exists|i: int| 0 <= i < as_vec@.len() && (#[trigger] as_vec@[i]).0 == t by {
+                    assert(req_left.contains(t));
+                }
+            }
+        //@ tail
+        //@ tag tags.ok_only_if_all_mandatory C13
+            proof { assert(Set::<u16>::empty().subset_of(seen)); }
         //@ end
         proof fn law_dec_bounds(b: Seq<u8>) {}
         proof fn law_dec_frame(b: Seq<u8>, s: Seq<u8>) {}
@@ -385,10 +781,31 @@
                 invariant
                     crate::is_tail(bytes@, bytes0), crate::frame::tail_base(bytes0), bytes@.len() <= bytes0.len(),
                     curr_len <= usize::MAX,
+        //@ tag tags.bookkeeping C13
+                    actual_tags@ =~= seen,
+                    required_tags@ =~= Set::<u16>::empty().difference(seen),
+        //@ tag tags.loop.decreases C02
                 decreases bytes@.len() + (if curr_len != bytes@.len() { 1nat } else { 0nat }),
         //@ entry
             let ghost bytes0 = bytes@;
+            let ghost mut seen: Set<u16> = Set::<u16>::empty();
             proof { lemma_slice_len_le_isize_max(bytes); crate::frame::lemma_tail_base(bytes0); }
+        //@ before letmutas_vec
+            let ghost req_left = required_tags@;
+        //@ before returnErr(zvt_builder::ZVTError::MissingRequiredTags
+        //@ tag tags.missing_names_all C13
+            proof {
+                assert(req_left =~= Set::<u16>::empty().difference(seen));
+                assert forall|i: int| 0 <= i < as_vec@.len() implies Set::<u16>::empty().contains((#[trigger] as_vec@[i]).0) && !seen.contains(as_vec@[i].0) by {
+                    assert(req_left.contains(as_vec@[i].0));
+                }
+                assert forall|t: u16| Set::<u16>::empty().contains(t) && !seen.contains(t) implies exists|i: int| 0 <= i < as_vec@.len() && (#[trigger] as_vec@[i]).0 == t by {
+                    assert(req_left.contains(t));
+                }
+            }
+        //@ tail
+        //@ tag tags.ok_only_if_all_mandatory C13
+            proof { assert(Set::<u16>::empty().subset_of(seen)); }
         //@ end
         proof fn law_dec_bounds(b: Seq<u8>) {}
         proof fn law_dec_frame(b: Seq<u8>, s: Seq<u8>) {}
@@ -423,10 +840,37 @@
                 invariant
                     crate::is_tail(bytes@, bytes0), crate::frame::tail_base(bytes0), bytes@.len() <= bytes0.len(),
                     curr_len <= usize::MAX,
+        //@ tag tags.bookkeeping C13
+                    actual_tags@ =~= seen,
+                    required_tags@ =~= Set::<u16>::empty().difference(seen),
+        //@ tag tags.loop.decreases C02
                 decreases bytes@.len() + (if curr_len != bytes@.len() { 1nat } else { 0nat }),
         //@ entry
             let ghost bytes0 = bytes@;
+            let ghost mut seen: Set<u16> = Set::<u16>::empty();
             proof { lemma_slice_len_le_isize_max(bytes); crate::frame::lemma_tail_base(bytes0); }
+        //@ before (terminal_id,bytes)=<
+        //@ tag tags.no_second_dispatch.terminal_id C13
+            proof { assert(!seen.contains(41u16)); seen = seen.insert(41u16) ; }
+        //@ before returnErr(zvt_builder::ZVTError::DuplicateTag(zvt_builder::Tag(41u16)
+        //@ tag tags.duplicate_error_is_true.terminal_id C13
+            proof { assert(seen.contains(41u16)) ; }
+        //@ before letmutas_vec
+            let ghost req_left = required_tags@;
+        //@ before returnErr(zvt_builder::ZVTError::MissingRequiredTags
+        //@ tag tags.missing_names_all C13
+            proof {
+                assert(req_left =~= Set::<u16>::empty().difference(seen));
+                assert forall|i: int| 0 <= i < as_vec@.len() implies Set::<u16>::empty().contains((#[trigger] as_vec@[i]).0) && !seen.contains(as_vec@[i].0) by {
+                    assert(req_left.contains(as_vec@[i].0));
+                }
+                assert forall|t: u16| Set::<u16>::empty().contains(t) && !seen.contains(t) implies exists|i: int| 0 <= i < as_vec@.len() && (#[trigger] as_vec@[i]).0 == t by {
+                    assert(req_left.contains(t));
+                }
+            }
+        //@ tail
+        //@ tag tags.ok_only_if_all_mandatory C13
+            proof { assert(Set::<u16>::empty().subset_of(seen)); }
         //@ end
         proof fn law_dec_bounds(b: Seq<u8>) {}
         proof fn law_dec_frame(b: Seq<u8>, s: Seq<u8>) {}
@@ -461,10 +905,31 @@
                 invariant
                     crate::is_tail(bytes@, bytes0), crate::frame::tail_base(bytes0), bytes@.len() <= bytes0.len(),
                     curr_len <= usize::MAX,
+        //@ tag tags.bookkeeping C13
+                    actual_tags@ =~= seen,
+                    required_tags@ =~= Set::<u16>::empty().difference(seen),
+        //@ tag tags.loop.decreases C02
                 decreases bytes@.len() + (if curr_len != bytes@.len() { 1nat } else { 0nat }),
         //@ entry
             let ghost bytes0 = bytes@;
+            let ghost mut seen: Set<u16> = Set::<u16>::empty();
             proof { lemma_slice_len_le_isize_max(bytes); crate::frame::lemma_tail_base(bytes0); }
+        //@ before letmutas_vec
+            let ghost req_left = required_tags@;
+        //@ before returnErr(zvt_builder::ZVTError::MissingRequiredTags
+        //@ tag tags.missing_names_all C13
+            proof {
+                assert(req_left =~= Set::<u16>::empty().difference(seen));
+                assert forall|i: int| 0 <= i < as_vec@.len() implies Set::<u16>::empty().contains((#[trigger] as_vec@[i]).0) && !seen.contains(as_vec@[i].0) by {
+                    assert(req_left.contains(as_vec@[i].0));
+                }
+                assert forall|t: u16| Set::<u16>::empty().contains(t) && !seen.contains(t) implies exists|i: int| 0 <= i < as_vec@.len() && (#[trigger] as_vec@[i]).0 == t by {
+                    assert(req_left.contains(t));
+                }
+            }
+        //@ tail
+        //@ tag tags.ok_only_if_all_mandatory C13
+            proof { assert(Set::<u16>::empty().subset_of(seen)); }
         //@ end
         proof fn law_dec_bounds(b: Seq<u8>) {}
         proof fn law_dec_frame(b: Seq<u8>, s: Seq<u8>) {}
@@ -499,10 +964,37 @@
                 invariant
                     crate::is_tail(bytes@, bytes0), crate::frame::tail_base(bytes0), bytes@.len() <= bytes0.len(),
                     curr_len <= usize::MAX,
+        //@ tag tags.bookkeeping C13
+                    actual_tags@ =~= seen,
+                    required_tags@ =~= Set::<u16>::empty().difference(seen),
+        //@ tag tags.loop.decreases C02
                 decreases bytes@.len() + (if curr_len != bytes@.len() { 1nat } else { 0nat }),
         //@ entry
             let ghost bytes0 = bytes@;
+            let ghost mut seen: Set<u16> = Set::<u16>::empty();
             proof { lemma_slice_len_le_isize_max(bytes); crate::frame::lemma_tail_base(bytes0); }
+        //@ before (tlv,bytes)=<
+        //@ tag tags.no_second_dispatch.tlv C13
+            proof { assert(!seen.contains(6u16)); seen = seen.insert(6u16) ; }
+        //@ before returnErr(zvt_builder::ZVTError::DuplicateTag(zvt_builder::Tag(6u16)
+        //@ tag tags.duplicate_error_is_true.tlv C13
+            proof { assert(seen.contains(6u16)) ; }
+        //@ before letmutas_vec
+            let ghost req_left = required_tags@;
+        //@ before returnErr(zvt_builder::ZVTError::MissingRequiredTags
+        //@ tag tags.missing_names_all C13
+            proof {
+                assert(req_left =~= Set::<u16>::empty().difference(seen));
+                assert forall|i: int| 0 <= i < as_vec@.len() implies Set::<u16>::empty().contains((#[trigger] as_vec@[i]).0) && !seen.contains(as_vec@[i].0) by {
+                    assert(req_left.contains(as_vec@[i].0));
+                }
+                assert forall|t: u16| Set::<u16>::empty().contains(t) && !seen.contains(t) implies exists|i: int| 0 <= i < as_vec@.len() && (#[trigger] as_vec@[i]).0 == t by {
+                    assert(req_left.contains(t));
+                }
+            }
+        //@ tail
+        //@ tag tags.ok_only_if_all_mandatory C13
+            proof { assert(Set::<u16>::empty().subset_of(seen)); }
         //@ end
         proof fn law_dec_bounds(b: Seq<u8>) {}
         proof fn law_dec_frame(b: Seq<u8>, s: Seq<u8>) {}
@@ -537,10 +1029,37 @@
                 invariant
                     crate::is_tail(bytes@, bytes0), crate::frame::tail_base(bytes0), bytes@.len() <= bytes0.len(),
                     curr_len <= usize::MAX,
+        //@ tag tags.bookkeeping C13
+                    actual_tags@ =~= seen,
+                    required_tags@ =~= Set::<u16>::empty().difference(seen),
+        //@ tag tags.loop.decreases C02
                 decreases bytes@.len() + (if curr_len != bytes@.len() { 1nat } else { 0nat }),
         //@ entry
             let ghost bytes0 = bytes@;
+            let ghost mut seen: Set<u16> = Set::<u16>::empty();
             proof { lemma_slice_len_le_isize_max(bytes); crate::frame::lemma_tail_base(bytes0); }
+        //@ before (receipt_no,bytes)=<
+        //@ tag tags.no_second_dispatch.receipt_no C13
+            proof { assert(!seen.contains(135u16)); seen = seen.insert(135u16) ; }
+        //@ before returnErr(zvt_builder::ZVTError::DuplicateTag(zvt_builder::Tag(135u16)
+        //@ tag tags.duplicate_error_is_true.receipt_no C13
+            proof { assert(seen.contains(135u16)) ; }
+        //@ before letmutas_vec
+            let ghost req_left = required_tags@;
+        //@ before returnErr(zvt_builder::ZVTError::MissingRequiredTags
+        //@ tag tags.missing_names_all C13
+            proof {
+                assert(req_left =~= Set::<u16>::empty().difference(seen));
+                assert forall|i: int| 0 <= i < as_vec@.len() implies Set::<u16>::empty().contains((#[trigger] as_vec@[i]).0) && !seen.contains(as_vec@[i].0) by {
+                    assert(req_left.contains(as_vec@[i].0));
+                }
+                assert forall|t: u16| Set::<u16>::empty().contains(t) && !seen.contains(t) implies exists|i: int| 0 <= i < as_vec@.len() && (#[trigger] as_vec@[i]).0 == t by {
+                    assert(req_left.contains(t));
+                }
+            }
+        //@ tail
+        //@ tag tags.ok_only_if_all_mandatory C13
+            proof { assert(Set::<u16>::empty().subset_of(seen)); }
         //@ end
         proof fn law_dec_bounds(b: Seq<u8>) {}
         proof fn law_dec_frame(b: Seq<u8>, s: Seq<u8>) {}
@@ -575,10 +1094,103 @@
                 invariant
                     crate::is_tail(bytes@, bytes0), crate::frame::tail_base(bytes0), bytes@.len() <= bytes0.len(),
                     curr_len <= usize::MAX,
+        //@ tag tags.bookkeeping C13
+                    actual_tags@ =~= seen,
+                    required_tags@ =~= Set::<u16>::empty().difference(seen),
+        //@ tag tags.loop.decreases C02
                 decreases bytes@.len() + (if curr_len != bytes@.len() { 1nat } else { 0nat }),
         //@ entry
             let ghost bytes0 = bytes@;
+            let ghost mut seen: Set<u16> = Set::<u16>::empty();
             proof { lemma_slice_len_le_isize_max(bytes); crate::frame::lemma_tail_base(bytes0); }
+        //@ before (amount,bytes)=<
+        //@ tag tags.no_second_dispatch.amount C13
+            proof { assert(!seen.contains(4u16)); seen = seen.insert(4u16) ; }
+        //@ before returnErr(zvt_builder::ZVTError::DuplicateTag(zvt_builder::Tag(4u16)
+        //@ tag tags.duplicate_error_is_true.amount C13
+            proof { assert(seen.contains(4u16)) ; }
+        //@ before (currency,bytes)=<
+        //@ tag tags.no_second_dispatch.currency C13
+            proof { assert(!seen.contains(73u16)); seen = seen.insert(73u16) ; }
+        //@ before returnErr(zvt_builder::ZVTError::DuplicateTag(zvt_builder::Tag(73u16)
+        //@ tag tags.duplicate_error_is_true.currency C13
+            proof { assert(seen.contains(73u16)) ; }
+        //@ before (payment_type,bytes)=<
+        //@ tag tags.no_second_dispatch.payment_type C13
+            proof { assert(!seen.contains(25u16)); seen = seen.insert(25u16) ; }
+        //@ before returnErr(zvt_builder::ZVTError::DuplicateTag(zvt_builder::Tag(25u16)
+        //@ tag tags.duplicate_error_is_true.payment_type C13
+            proof { assert(seen.contains(25u16)) ; }
+        //@ before (expiry_date,bytes)=<
+        //@ tag tags.no_second_dispatch.expiry_date C13
+            proof { assert(!seen.contains(14u16)); seen = seen.insert(14u16) ; }
+        //@ before returnErr(zvt_builder::ZVTError::DuplicateTag(zvt_builder::Tag(14u16)
+        //@ tag tags.duplicate_error_is_true.expiry_date C13
+            proof { assert(seen.contains(14u16)) ; }
+        //@ before (card_number,bytes)=<
+        //@ tag tags.no_second_dispatch.card_number C13
+            proof { assert(!seen.contains(34u16)); seen = seen.insert(34u16) ; }
+        //@ before returnErr(zvt_builder::ZVTError::DuplicateTag(zvt_builder::Tag(34u16)
+        //@ tag tags.duplicate_error_is_true.card_number C13
+            proof { assert(seen.contains(34u16)) ; }
+        //@ before (track_2_data,bytes)=<
+        //@ tag tags.no_second_dispatch.track_2_data C13
+            proof { assert(!seen.contains(35u16)); seen = seen.insert(35u16) ; }
+        //@ before returnErr(zvt_builder::ZVTError::DuplicateTag(zvt_builder::Tag(35u16)
+        //@ tag tags.duplicate_error_is_true.track_2_data C13
+            proof { assert(seen.contains(35u16)) ; }
+        //@ before (timeout,bytes)=<
+        //@ tag tags.no_second_dispatch.timeout C13
+            proof { assert(!seen.contains(1u16)); seen = seen.insert(1u16) ; }
+        //@ before returnErr(zvt_builder::ZVTError::DuplicateTag(zvt_builder::Tag(1u16)
+        //@ tag tags.duplicate_error_is_true.timeout C13
+            proof { assert(seen.contains(1u16)) ; }
+        //@ before (maximum_no_of_status_info,bytes)=<
+        //@ tag tags.no_second_dispatch.maximum_no_of_status_info C13
+            proof { assert(!seen.contains(2u16)); seen = seen.insert(2u16) ; }
+        //@ before returnErr(zvt_builder::ZVTError::DuplicateTag(zvt_builder::Tag(2u16)
+        //@ tag tags.duplicate_error_is_true.maximum_no_of_status_info C13
+            proof { assert(seen.contains(2u16)) ; }
+        //@ before (pump_no,bytes)=<
+        //@ tag tags.no_second_dispatch.pump_no C13
+            proof { assert(!seen.contains(5u16)); seen = seen.insert(5u16) ; }
+        //@ before returnErr(zvt_builder::ZVTError::DuplicateTag(zvt_builder::Tag(5u16)
+        //@ tag tags.duplicate_error_is_true.pump_no C13
+            proof { assert(seen.contains(5u16)) ; }
+        //@ before (additional_text,bytes)=<
+        //@ tag tags.no_second_dispatch.additional_text C13
+            proof { assert(!seen.contains(60u16)); seen = seen.insert(60u16) ; }
+        //@ before returnErr(zvt_builder::ZVTError::DuplicateTag(zvt_builder::Tag(60u16)
+        //@ tag tags.duplicate_error_is_true.additional_text C13
+            proof { assert(seen.contains(60u16)) ; }
+        //@ before (zvt_card_type,bytes)=<
+        //@ tag tags.no_second_dispatch.zvt_card_type C13
+            proof { assert(!seen.contains(138u16)); seen = seen.insert(138u16) ; }
+        //@ before returnErr(zvt_builder::ZVTError::DuplicateTag(zvt_builder::Tag(138u16)
+        //@ tag tags.duplicate_error_is_true.zvt_card_type C13
+            proof { assert(seen.contains(138u16)) ; }
+        //@ before (tlv,bytes)=<
+        //@ tag tags.no_second_dispatch.tlv C13
+            proof { assert(!seen.contains(6u16)); seen = seen.insert(6u16) ; }
+        //@ before returnErr(zvt_builder::ZVTError::DuplicateTag(zvt_builder::Tag(6u16)
+        //@ tag tags.duplicate_error_is_true.tlv C13
+            proof { assert(seen.contains(6u16)) ; }
+        //@ before letmutas_vec
+            let ghost req_left = required_tags@;
+        //@ before returnErr(zvt_builder::ZVTError::MissingRequiredTags
+        //@ tag tags.missing_names_all C13
+            proof {
+                assert(req_left =~= Set::<u16>::empty().difference(seen));
+                assert forall|i: int| 0 <= i < as_vec@.len() implies Set::<u16>::empty().contains((#[trigger] as_vec@[i]).0) && !seen.contains(as_vec@[i].0) by {
+                    assert(req_left.contains(as_vec@[i].0));
+                }
+                assert forall|t: u16| Set::<u16>::empty().contains(t) && !seen.contains(t) implies exists|i: int| 0 <= i < as_vec@.len() && (#[trigger] as_vec@[i]).0 == t by {
+                    assert(req_left.contains(t));
+                }
+            }
+        //@ tail
+        //@ tag tags.ok_only_if_all_mandatory C13
+            proof { assert(Set::<u16>::empty().subset_of(seen)); }
         //@ end
         proof fn law_dec_bounds(b: Seq<u8>) {}
         proof fn law_dec_frame(b: Seq<u8>, s: Seq<u8>) {}
@@ -613,10 +1225,115 @@
                 invariant
                     crate::is_tail(bytes@, bytes0), crate::frame::tail_base(bytes0), bytes@.len() <= bytes0.len(),
                     curr_len <= usize::MAX,
+        //@ tag tags.bookkeeping C13
+                    actual_tags@ =~= seen,
+                    required_tags@ =~= Set::<u16>::empty().difference(seen),
+        //@ tag tags.loop.decreases C02
                 decreases bytes@.len() + (if curr_len != bytes@.len() { 1nat } else { 0nat }),
         //@ entry
             let ghost bytes0 = bytes@;
+            let ghost mut seen: Set<u16> = Set::<u16>::empty();
             proof { lemma_slice_len_le_isize_max(bytes); crate::frame::lemma_tail_base(bytes0); }
+        //@ before (amount,bytes)=<
+        //@ tag tags.no_second_dispatch.amount C13
+            proof { assert(!seen.contains(4u16)); seen = seen.insert(4u16) ; }
+        //@ before returnErr(zvt_builder::ZVTError::DuplicateTag(zvt_builder::Tag(4u16)
+        //@ tag tags.duplicate_error_is_true.amount C13
+            proof { assert(seen.contains(4u16)) ; }
+        //@ before (currency,bytes)=<
+        //@ tag tags.no_second_dispatch.currency C13
+            proof { assert(!seen.contains(73u16)); seen = seen.insert(73u16) ; }
+        //@ before returnErr(zvt_builder::ZVTError::DuplicateTag(zvt_builder::Tag(73u16)
+        //@ tag tags.duplicate_error_is_true.currency C13
+            proof { assert(seen.contains(73u16)) ; }
+        //@ before (payment_type,bytes)=<
+        //@ tag tags.no_second_dispatch.payment_type C13
+            proof { assert(!seen.contains(25u16)); seen = seen.insert(25u16) ; }
+        //@ before returnErr(zvt_builder::ZVTError::DuplicateTag(zvt_builder::Tag(25u16)
+        //@ tag tags.duplicate_error_is_true.payment_type C13
+            proof { assert(seen.contains(25u16)) ; }
+        //@ before (expiry_date,bytes)=<
+        //@ tag tags.no_second_dispatch.expiry_date C13
+            proof { assert(!seen.contains(14u16)); seen = seen.insert(14u16) ; }
+        //@ before returnErr(zvt_builder::ZVTError::DuplicateTag(zvt_builder::Tag(14u16)
+        //@ tag tags.duplicate_error_is_true.expiry_date C13
+            proof { assert(seen.contains(14u16)) ; }
+        //@ before (card_number,bytes)=<
+        //@ tag tags.no_second_dispatch.card_number C13
+            proof { assert(!seen.contains(34u16)); seen = seen.insert(34u16) ; }
+        //@ before returnErr(zvt_builder::ZVTError::DuplicateTag(zvt_builder::Tag(34u16)
+        //@ tag tags.duplicate_error_is_true.card_number C13
+            proof { assert(seen.contains(34u16)) ; }
+        //@ before (track_2_data,bytes)=<
+        //@ tag tags.no_second_dispatch.track_2_data C13
+            proof { assert(!seen.contains(35u16)); seen = seen.insert(35u16) ; }
+        //@ before returnErr(zvt_builder::ZVTError::DuplicateTag(zvt_builder::Tag(35u16)
+        //@ tag tags.duplicate_error_is_true.track_2_data C13
+            proof { assert(seen.contains(35u16)) ; }
+        //@ before (timeout,bytes)=<
+        //@ tag tags.no_second_dispatch.timeout C13
+            proof { assert(!seen.contains(1u16)); seen = seen.insert(1u16) ; }
+        //@ before returnErr(zvt_builder::ZVTError::DuplicateTag(zvt_builder::Tag(1u16)
+        //@ tag tags.duplicate_error_is_true.timeout C13
+            proof { assert(seen.contains(1u16)) ; }
+        //@ before (maximum_no_of_status_info,bytes)=<
+        //@ tag tags.no_second_dispatch.maximum_no_of_status_info C13
+            proof { assert(!seen.contains(2u16)); seen = seen.insert(2u16) ; }
+        //@ before returnErr(zvt_builder::ZVTError::DuplicateTag(zvt_builder::Tag(2u16)
+        //@ tag tags.duplicate_error_is_true.maximum_no_of_status_info C13
+            proof { assert(seen.contains(2u16)) ; }
+        //@ before (pump_no,bytes)=<
+        //@ tag tags.no_second_dispatch.pump_no C13
+            proof { assert(!seen.contains(5u16)); seen = seen.insert(5u16) ; }
+        //@ before returnErr(zvt_builder::ZVTError::DuplicateTag(zvt_builder::Tag(5u16)
+        //@ tag tags.duplicate_error_is_true.pump_no C13
+            proof { assert(seen.contains(5u16)) ; }
+        //@ before (trace_number,bytes)=<
+        //@ tag tags.no_second_dispatch.trace_number C13
+            proof { assert(!seen.contains(11u16)); seen = seen.insert(11u16) ; }
+        //@ before returnErr(zvt_builder::ZVTError::DuplicateTag(zvt_builder::Tag(11u16)
+        //@ tag tags.duplicate_error_is_true.trace_number C13
+            proof { assert(seen.contains(11u16)) ; }
+        //@ before (aid_authorization_attribute,bytes)=<
+        //@ tag tags.no_second_dispatch.aid_authorization_attribute C13
+            proof { assert(!seen.contains(59u16)); seen = seen.insert(59u16) ; }
+        //@ before returnErr(zvt_builder::ZVTError::DuplicateTag(zvt_builder::Tag(59u16)
+        //@ tag tags.duplicate_error_is_true.aid_authorization_attribute C13
+            proof { assert(seen.contains(59u16)) ; }
+        //@ before (additional_text,bytes)=<
+        //@ tag tags.no_second_dispatch.additional_text C13
+            proof { assert(!seen.contains(60u16)); seen = seen.insert(60u16) ; }
+        //@ before returnErr(zvt_builder::ZVTError::DuplicateTag(zvt_builder::Tag(60u16)
+        //@ tag tags.duplicate_error_is_true.additional_text C13
+            proof { assert(seen.contains(60u16)) ; }
+        //@ before (zvt_card_type,bytes)=<
+        //@ tag tags.no_second_dispatch.zvt_card_type C13
+            proof { assert(!seen.contains(138u16)); seen = seen.insert(138u16) ; }
+        //@ before returnErr(zvt_builder::ZVTError::DuplicateTag(zvt_builder::Tag(138u16)
+        //@ tag tags.duplicate_error_is_true.zvt_card_type C13
+            proof { assert(seen.contains(138u16)) ; }
+        //@ before (tlv,bytes)=<
+        //@ tag tags.no_second_dispatch.tlv C13
+            proof { assert(!seen.contains(6u16)); seen = seen.insert(6u16) ; }
+        //@ before returnErr(zvt_builder::ZVTError::DuplicateTag(zvt_builder::Tag(6u16)
+        //@ tag tags.duplicate_error_is_true.tlv C13
+            proof { assert(seen.contains(6u16)) ; }
+        //@ before letmutas_vec
+            let ghost req_left = required_tags@;
+        //@ before returnErr(zvt_builder::ZVTError::MissingRequiredTags
+        //@ tag tags.missing_names_all C13
+            proof {
+                assert(req_left =~= Set::<u16>::empty().difference(seen));
+                assert forall|i: int| 0 <= i < as_vec@.len() implies Set::<u16>::empty().contains((#[trigger] as_vec@[i]).0) && !seen.contains(as_vec@[i].0) by {
+                    assert(req_left.contains(as_vec@[i].0));
+                }
+                assert forall|t: u16| Set::<u16>::empty().contains(t) && !seen.contains(t) implies exists|i: int| 0 <= i < as_vec@.len() && (#[trigger] as_vec@[i]).0 == t by {
+                    assert(req_left.contains(t));
+                }
+            }
+        //@ tail
+        //@ tag tags.ok_only_if_all_mandatory C13
+            proof { assert(Set::<u16>::empty().subset_of(seen)); }
         //@ end
         proof fn law_dec_bounds(b: Seq<u8>) {}
         proof fn law_dec_frame(b: Seq<u8>, s: Seq<u8>) {}
@@ -651,10 +1368,61 @@
                 invariant
                     crate::is_tail(bytes@, bytes0), crate::frame::tail_base(bytes0), bytes@.len() <= bytes0.len(),
                     curr_len <= usize::MAX,
+        //@ tag tags.bookkeeping C13
+                    actual_tags@ =~= seen,
+                    required_tags@ =~= Set::<u16>::empty().difference(seen),
+        //@ tag tags.loop.decreases C02
                 decreases bytes@.len() + (if curr_len != bytes@.len() { 1nat } else { 0nat }),
         //@ entry
             let ghost bytes0 = bytes@;
+            let ghost mut seen: Set<u16> = Set::<u16>::empty();
             proof { lemma_slice_len_le_isize_max(bytes); crate::frame::lemma_tail_base(bytes0); }
+        //@ before (receipt_no,bytes)=<
+        //@ tag tags.no_second_dispatch.receipt_no C13
+            proof { assert(!seen.contains(135u16)); seen = seen.insert(135u16) ; }
+        //@ before returnErr(zvt_builder::ZVTError::DuplicateTag(zvt_builder::Tag(135u16)
+        //@ tag tags.duplicate_error_is_true.receipt_no C13
+            proof { assert(seen.contains(135u16)) ; }
+        //@ before (amount,bytes)=<
+        //@ tag tags.no_second_dispatch.amount C13
+            proof { assert(!seen.contains(4u16)); seen = seen.insert(4u16) ; }
+        //@ before returnErr(zvt_builder::ZVTError::DuplicateTag(zvt_builder::Tag(4u16)
+        //@ tag tags.duplicate_error_is_true.amount C13
+            proof { assert(seen.contains(4u16)) ; }
+        //@ before (payment_type,bytes)=<
+        //@ tag tags.no_second_dispatch.payment_type C13
+            proof { assert(!seen.contains(25u16)); seen = seen.insert(25u16) ; }
+        //@ before returnErr(zvt_builder::ZVTError::DuplicateTag(zvt_builder::Tag(25u16)
+        //@ tag tags.duplicate_error_is_true.payment_type C13
+            proof { assert(seen.contains(25u16)) ; }
+        //@ before (currency,bytes)=<
+        //@ tag tags.no_second_dispatch.currency C13
+            proof { assert(!seen.contains(73u16)); seen = seen.insert(73u16) ; }
+        //@ before returnErr(zvt_builder::ZVTError::DuplicateTag(zvt_builder::Tag(73u16)
+        //@ tag tags.duplicate_error_is_true.currency C13
+            proof { assert(seen.contains(73u16)) ; }
+        //@ before (tlv,bytes)=<
+        //@ tag tags.no_second_dispatch.tlv C13
+            proof { assert(!seen.contains(6u16)); seen = seen.insert(6u16) ; }
+        //@ before returnErr(zvt_builder::ZVTError::DuplicateTag(zvt_builder::Tag(6u16)
+        //@ tag tags.duplicate_error_is_true.tlv C13
+            proof { assert(seen.contains(6u16)) ; }
+        //@ before letmutas_vec
+            let ghost req_left = required_tags@;
+        //@ before returnErr(zvt_builder::ZVTError::MissingRequiredTags
+        //@ tag tags.missing_names_all C13
+            proof {
+                assert(req_left =~= Set::<u16>::empty().difference(seen));
+                assert forall|i: int| 0 <= i < as_vec@.len() implies Set::<u16>::empty().contains((#[trigger] as_vec@[i]).0) && !seen.contains(as_vec@[i].0) by {
+                    assert(req_left.contains(as_vec@[i].0));
+                }
+                assert forall|t: u16| Set::<u16>::empty().contains(t) && !seen.contains(t) implies exists|i: int| 0 <= i < as_vec@.len() && (#[trigger] as_vec@[i]).0 == t by {
+                    assert(req_left.contains(t));
+                }
+            }
+        //@ tail
+        //@ tag tags.ok_only_if_all_mandatory C13
+            proof { assert(Set::<u16>::empty().subset_of(seen)); }
         //@ end
         proof fn law_dec_bounds(b: Seq<u8>) {}
         proof fn law_dec_frame(b: Seq<u8>, s: Seq<u8>) {}
@@ -689,10 +1457,49 @@
                 invariant
                     crate::is_tail(bytes@, bytes0), crate::frame::tail_base(bytes0), bytes@.len() <= bytes0.len(),
                     curr_len <= usize::MAX,
+        //@ tag tags.bookkeeping C13
+                    actual_tags@ =~= seen,
+                    required_tags@ =~= Set::<u16>::empty().difference(seen),
+        //@ tag tags.loop.decreases C02
                 decreases bytes@.len() + (if curr_len != bytes@.len() { 1nat } else { 0nat }),
         //@ entry
             let ghost bytes0 = bytes@;
+            let ghost mut seen: Set<u16> = Set::<u16>::empty();
             proof { lemma_slice_len_le_isize_max(bytes); crate::frame::lemma_tail_base(bytes0); }
+        //@ before (payment_type,bytes)=<
+        //@ tag tags.no_second_dispatch.payment_type C13
+            proof { assert(!seen.contains(25u16)); seen = seen.insert(25u16) ; }
+        //@ before returnErr(zvt_builder::ZVTError::DuplicateTag(zvt_builder::Tag(25u16)
+        //@ tag tags.duplicate_error_is_true.payment_type C13
+            proof { assert(seen.contains(25u16)) ; }
+        //@ before (currency,bytes)=<
+        //@ tag tags.no_second_dispatch.currency C13
+            proof { assert(!seen.contains(73u16)); seen = seen.insert(73u16) ; }
+        //@ before returnErr(zvt_builder::ZVTError::DuplicateTag(zvt_builder::Tag(73u16)
+        //@ tag tags.duplicate_error_is_true.currency C13
+            proof { assert(seen.contains(73u16)) ; }
+        //@ before (receipt_no,bytes)=<
+        //@ tag tags.no_second_dispatch.receipt_no C13
+            proof { assert(!seen.contains(135u16)); seen = seen.insert(135u16) ; }
+        //@ before returnErr(zvt_builder::ZVTError::DuplicateTag(zvt_builder::Tag(135u16)
+        //@ tag tags.duplicate_error_is_true.receipt_no C13
+            proof { assert(seen.contains(135u16)) ; }
+        //@ before letmutas_vec
+            let ghost req_left = required_tags@;
+        //@ before returnErr(zvt_builder::ZVTError::MissingRequiredTags
+        //@ tag tags.missing_names_all C13
+            proof {
+                assert(req_left =~= Set::<u16>::empty().difference(seen));
+                assert forall|i: int| 0 <= i < as_vec@.len() implies Set::<u16>::empty().contains((#[trigger] as_vec@[i]).0) && !seen.contains(as_vec@[i].0) by {
+                    assert(req_left.contains(as_vec@[i].0));
+                }
+                assert forall|t: u16| Set::<u16>::empty().contains(t) && !seen.contains(t) implies exists|i: int| 0 <= i < as_vec@.len() && (#[trigger] as_vec@[i]).0 == t by {
+                    assert(req_left.contains(t));
+                }
+            }
+        //@ tail
+        //@ tag tags.ok_only_if_all_mandatory C13
+            proof { assert(Set::<u16>::empty().subset_of(seen)); }
         //@ end
         proof fn law_dec_bounds(b: Seq<u8>) {}
         proof fn law_dec_frame(b: Seq<u8>, s: Seq<u8>) {}
@@ -727,10 +1534,31 @@
                 invariant
                     crate::is_tail(bytes@, bytes0), crate::frame::tail_base(bytes0), bytes@.len() <= bytes0.len(),
                     curr_len <= usize::MAX,
+        //@ tag tags.bookkeeping C13
+                    actual_tags@ =~= seen,
+                    required_tags@ =~= Set::<u16>::empty().difference(seen),
+        //@ tag tags.loop.decreases C02
                 decreases bytes@.len() + (if curr_len != bytes@.len() { 1nat } else { 0nat }),
         //@ entry
             let ghost bytes0 = bytes@;
+            let ghost mut seen: Set<u16> = Set::<u16>::empty();
             proof { lemma_slice_len_le_isize_max(bytes); crate::frame::lemma_tail_base(bytes0); }
+        //@ before letmutas_vec
+            let ghost req_left = required_tags@;
+        //@ before returnErr(zvt_builder::ZVTError::MissingRequiredTags
+        //@ tag tags.missing_names_all C13
+            proof {
+                assert(req_left =~= Set::<u16>::empty().difference(seen));
+                assert forall|i: int| 0 <= i < as_vec@.len() implies Set::<u16>::empty().contains((#[trigger] as_vec@[i]).0) && !seen.contains(as_vec@[i].0) by {
+                    assert(req_left.contains(as_vec@[i].0));
+                }
+                assert forall|t: u16| Set::<u16>::empty().contains(t) && !seen.contains(t) implies exists|i: int| 0 <= i < as_vec@.len() && (#[trigger] as_vec@[i]).0 == t by {
+                    assert(req_left.contains(t));
+                }
+            }
+        //@ tail
+        //@ tag tags.ok_only_if_all_mandatory C13
+            proof { assert(Set::<u16>::empty().subset_of(seen)); }
         //@ end
         proof fn law_dec_bounds(b: Seq<u8>) {}
         proof fn law_dec_frame(b: Seq<u8>, s: Seq<u8>) {}
@@ -765,10 +1593,37 @@
                 invariant
                     crate::is_tail(bytes@, bytes0), crate::frame::tail_base(bytes0), bytes@.len() <= bytes0.len(),
                     curr_len <= usize::MAX,
+        //@ tag tags.bookkeeping C13
+                    actual_tags@ =~= seen,
+                    required_tags@ =~= Set::<u16>::empty().difference(seen),
+        //@ tag tags.loop.decreases C02
                 decreases bytes@.len() + (if curr_len != bytes@.len() { 1nat } else { 0nat }),
         //@ entry
             let ghost bytes0 = bytes@;
+            let ghost mut seen: Set<u16> = Set::<u16>::empty();
             proof { lemma_slice_len_le_isize_max(bytes); crate::frame::lemma_tail_base(bytes0); }
+        //@ before (tlv,bytes)=<
+        //@ tag tags.no_second_dispatch.tlv C13
+            proof { assert(!seen.contains(6u16)); seen = seen.insert(6u16) ; }
+        //@ before returnErr(zvt_builder::ZVTError::DuplicateTag(zvt_builder::Tag(6u16)
+        //@ tag tags.duplicate_error_is_true.tlv C13
+            proof { assert(seen.contains(6u16)) ; }
+        //@ before letmutas_vec
+            let ghost req_left = required_tags@;
+        //@ before returnErr(zvt_builder::ZVTError::MissingRequiredTags
+        //@ tag tags.missing_names_all C13
+            proof {
+                assert(req_left =~= Set::<u16>::empty().difference(seen));
+                assert forall|i: int| 0 <= i < as_vec@.len() implies Set::<u16>::empty().contains((#[trigger] as_vec@[i]).0) && !seen.contains(as_vec@[i].0) by {
+                    assert(req_left.contains(as_vec@[i].0));
+                }
+                assert forall|t: u16| Set::<u16>::empty().contains(t) && !seen.contains(t) implies exists|i: int| 0 <= i < as_vec@.len() && (#[trigger] as_vec@[i]).0 == t by {
+                    assert(req_left.contains(t));
+                }
+            }
+        //@ tail
+        //@ tag tags.ok_only_if_all_mandatory C13
+            proof { assert(Set::<u16>::empty().subset_of(seen)); }
         //@ end
         proof fn law_dec_bounds(b: Seq<u8>) {}
         proof fn law_dec_frame(b: Seq<u8>, s: Seq<u8>) {}
@@ -803,10 +1658,31 @@
                 invariant
                     crate::is_tail(bytes@, bytes0), crate::frame::tail_base(bytes0), bytes@.len() <= bytes0.len(),
                     curr_len <= usize::MAX,
+        //@ tag tags.bookkeeping C13
+                    actual_tags@ =~= seen,
+                    required_tags@ =~= Set::<u16>::empty().difference(seen),
+        //@ tag tags.loop.decreases C02
                 decreases bytes@.len() + (if curr_len != bytes@.len() { 1nat } else { 0nat }),
         //@ entry
             let ghost bytes0 = bytes@;
+            let ghost mut seen: Set<u16> = Set::<u16>::empty();
             proof { lemma_slice_len_le_isize_max(bytes); crate::frame::lemma_tail_base(bytes0); }
+        //@ before letmutas_vec
+            let ghost req_left = required_tags@;
+        //@ before returnErr(zvt_builder::ZVTError::MissingRequiredTags
+        //@ tag tags.missing_names_all C13
+            proof {
+                assert(req_left =~= Set::<u16>::empty().difference(seen));
+                assert forall|i: int| 0 <= i < as_vec@.len() implies Set::<u16>::empty().contains((#[trigger] as_vec@[i]).0) && !seen.contains(as_vec@[i].0) by {
+                    assert(req_left.contains(as_vec@[i].0));
+                }
+                assert forall|t: u16| Set::<u16>::empty().contains(t) && !seen.contains(t) implies exists|i: int| 0 <= i < as_vec@.len() && (#[trigger] as_vec@[i]).0 == t by {
+                    assert(req_left.contains(t));
+                }
+            }
+        //@ tail
+        //@ tag tags.ok_only_if_all_mandatory C13
+            proof { assert(Set::<u16>::empty().subset_of(seen)); }
         //@ end
         proof fn law_dec_bounds(b: Seq<u8>) {}
         proof fn law_dec_frame(b: Seq<u8>, s: Seq<u8>) {}
@@ -841,10 +1717,49 @@
                 invariant
                     crate::is_tail(bytes@, bytes0), crate::frame::tail_base(bytes0), bytes@.len() <= bytes0.len(),
                     curr_len <= usize::MAX,
+        //@ tag tags.bookkeeping C13
+                    actual_tags@ =~= seen,
+                    required_tags@ =~= Set::<u16>::empty().difference(seen),
+        //@ tag tags.loop.decreases C02
                 decreases bytes@.len() + (if curr_len != bytes@.len() { 1nat } else { 0nat }),
         //@ entry
             let ghost bytes0 = bytes@;
+            let ghost mut seen: Set<u16> = Set::<u16>::empty();
             proof { lemma_slice_len_le_isize_max(bytes); crate::frame::lemma_tail_base(bytes0); }
+        //@ before (card_type,bytes)=<
+        //@ tag tags.no_second_dispatch.card_type C13
+            proof { assert(!seen.contains(25u16)); seen = seen.insert(25u16) ; }
+        //@ before returnErr(zvt_builder::ZVTError::DuplicateTag(zvt_builder::Tag(25u16)
+        //@ tag tags.duplicate_error_is_true.card_type C13
+            proof { assert(seen.contains(25u16)) ; }
+        //@ before (dialog_control,bytes)=<
+        //@ tag tags.no_second_dispatch.dialog_control C13
+            proof { assert(!seen.contains(252u16)); seen = seen.insert(252u16) ; }
+        //@ before returnErr(zvt_builder::ZVTError::DuplicateTag(zvt_builder::Tag(252u16)
+        //@ tag tags.duplicate_error_is_true.dialog_control C13
+            proof { assert(seen.contains(252u16)) ; }
+        //@ before (tlv,bytes)=<
+        //@ tag tags.no_second_dispatch.tlv C13
+            proof { assert(!seen.contains(6u16)); seen = seen.insert(6u16) ; }
+        //@ before returnErr(zvt_builder::ZVTError::DuplicateTag(zvt_builder::Tag(6u16)
+        //@ tag tags.duplicate_error_is_true.tlv C13
+            proof { assert(seen.contains(6u16)) ; }
+        //@ before letmutas_vec
+            let ghost req_left = required_tags@;
+        //@ before returnErr(zvt_builder::ZVTError::MissingRequiredTags
+        //@ tag tags.missing_names_all C13
+            proof {
+                assert(req_left =~= Set::<u16>::empty().difference(seen));
+                assert forall|i: int| 0 <= i < as_vec@.len() implies Set::<u16>::empty().contains((#[trigger] as_vec@[i]).0) && !seen.contains(as_vec@[i].0) by {
+                    assert(req_left.contains(as_vec@[i].0));
+                }
+                assert forall|t: u16| Set::<u16>::empty().contains(t) && !seen.contains(t) implies exists|i: int| 0 <= i < as_vec@.len() && (#[trigger] as_vec@[i]).0 == t by {
+                    assert(req_left.contains(t));
+                }
+            }
+        //@ tail
+        //@ tag tags.ok_only_if_all_mandatory C13
+            proof { assert(Set::<u16>::empty().subset_of(seen)); }
         //@ end
         proof fn law_dec_bounds(b: Seq<u8>) {}
         proof fn law_dec_frame(b: Seq<u8>, s: Seq<u8>) {}
@@ -879,10 +1794,31 @@
                 invariant
                     crate::is_tail(bytes@, bytes0), crate::frame::tail_base(bytes0), bytes@.len() <= bytes0.len(),
                     curr_len <= usize::MAX,
+        //@ tag tags.bookkeeping C13
+                    actual_tags@ =~= seen,
+                    required_tags@ =~= Set::<u16>::empty().difference(seen),
+        //@ tag tags.loop.decreases C02
                 decreases bytes@.len() + (if curr_len != bytes@.len() { 1nat } else { 0nat }),
         //@ entry
             let ghost bytes0 = bytes@;
+            let ghost mut seen: Set<u16> = Set::<u16>::empty();
             proof { lemma_slice_len_le_isize_max(bytes); crate::frame::lemma_tail_base(bytes0); }
+        //@ before letmutas_vec
+            let ghost req_left = required_tags@;
+        //@ before returnErr(zvt_builder::ZVTError::MissingRequiredTags
+        //@ tag tags.missing_names_all C13
+            proof {
+                assert(req_left =~= Set::<u16>::empty().difference(seen));
+                assert forall|i: int| 0 <= i < as_vec@.len() implies Set::<u16>::empty().contains((#[trigger] as_vec@[i]).0) && !seen.contains(as_vec@[i].0) by {
+                    assert(req_left.contains(as_vec@[i].0));
+                }
+                assert forall|t: u16| Set::<u16>::empty().contains(t) && !seen.contains(t) implies exists|i: int| 0 <= i < as_vec@.len() && (#[trigger] as_vec@[i]).0 == t by {
+                    assert(req_left.contains(t));
+                }
+            }
+        //@ tail
+        //@ tag tags.ok_only_if_all_mandatory C13
+            proof { assert(Set::<u16>::empty().subset_of(seen)); }
         //@ end
         proof fn law_dec_bounds(b: Seq<u8>) {}
         proof fn law_dec_frame(b: Seq<u8>, s: Seq<u8>) {}
@@ -917,10 +1853,37 @@
                 invariant
                     crate::is_tail(bytes@, bytes0), crate::frame::tail_base(bytes0), bytes@.len() <= bytes0.len(),
                     curr_len <= usize::MAX,
+        //@ tag tags.bookkeeping C13
+                    actual_tags@ =~= seen,
+                    required_tags@ =~= Set::<u16>::empty().difference(seen),
+        //@ tag tags.loop.decreases C02
                 decreases bytes@.len() + (if curr_len != bytes@.len() { 1nat } else { 0nat }),
         //@ entry
             let ghost bytes0 = bytes@;
+            let ghost mut seen: Set<u16> = Set::<u16>::empty();
             proof { lemma_slice_len_le_isize_max(bytes); crate::frame::lemma_tail_base(bytes0); }
+        //@ before (tlv,bytes)=<
+        //@ tag tags.no_second_dispatch.tlv C13
+            proof { assert(!seen.contains(6u16)); seen = seen.insert(6u16) ; }
+        //@ before returnErr(zvt_builder::ZVTError::DuplicateTag(zvt_builder::Tag(6u16)
+        //@ tag tags.duplicate_error_is_true.tlv C13
+            proof { assert(seen.contains(6u16)) ; }
+        //@ before letmutas_vec
+            let ghost req_left = required_tags@;
+        //@ before returnErr(zvt_builder::ZVTError::MissingRequiredTags
+        //@ tag tags.missing_names_all C13
+            proof {
+                assert(req_left =~= Set::<u16>::empty().difference(seen));
+                assert forall|i: int| 0 <= i < as_vec@.len() implies Set::<u16>::empty().contains((#[trigger] as_vec@[i]).0) && !seen.contains(as_vec@[i].0) by {
+                    assert(req_left.contains(as_vec@[i].0));
+                }
+                assert forall|t: u16| Set::<u16>::empty().contains(t) && !seen.contains(t) implies exists|i: int| 0 <= i < as_vec@.len() && (#[trigger] as_vec@[i]).0 == t by {
+                    assert(req_left.contains(t));
+                }
+            }
+        //@ tail
+        //@ tag tags.ok_only_if_all_mandatory C13
+            proof { assert(Set::<u16>::empty().subset_of(seen)); }
         //@ end
         proof fn law_dec_bounds(b: Seq<u8>) {}
         proof fn law_dec_frame(b: Seq<u8>, s: Seq<u8>) {}
@@ -955,10 +1918,31 @@
                 invariant
                     crate::is_tail(bytes@, bytes0), crate::frame::tail_base(bytes0), bytes@.len() <= bytes0.len(),
                     curr_len <= usize::MAX,
+        //@ tag tags.bookkeeping C13
+                    actual_tags@ =~= seen,
+                    required_tags@ =~= Set::<u16>::empty().difference(seen),
+        //@ tag tags.loop.decreases C02
                 decreases bytes@.len() + (if curr_len != bytes@.len() { 1nat } else { 0nat }),
         //@ entry
             let ghost bytes0 = bytes@;
+            let ghost mut seen: Set<u16> = Set::<u16>::empty();
             proof { lemma_slice_len_le_isize_max(bytes); crate::frame::lemma_tail_base(bytes0); }
+        //@ before letmutas_vec
+            let ghost req_left = required_tags@;
+        //@ before returnErr(zvt_builder::ZVTError::MissingRequiredTags
+        //@ tag tags.missing_names_all C13
+            proof {
+                assert(req_left =~= Set::<u16>::empty().difference(seen));
+                assert forall|i: int| 0 <= i < as_vec@.len() implies Set::<u16>::empty().contains((#[trigger] as_vec@[i]).0) && !seen.contains(as_vec@[i].0) by {
+                    assert(req_left.contains(as_vec@[i].0));
+                }
+                assert forall|t: u16| Set::<u16>::empty().contains(t) && !seen.contains(t) implies exists|i: int| 0 <= i < as_vec@.len() && (#[trigger] as_vec@[i]).0 == t by {
+                    assert(req_left.contains(t));
+                }
+            }
+        //@ tail
+        //@ tag tags.ok_only_if_all_mandatory C13
+            proof { assert(Set::<u16>::empty().subset_of(seen)); }
         //@ end
         proof fn law_dec_bounds(b: Seq<u8>) {}
         proof fn law_dec_frame(b: Seq<u8>, s: Seq<u8>) {}
@@ -993,10 +1977,31 @@
                 invariant
                     crate::is_tail(bytes@, bytes0), crate::frame::tail_base(bytes0), bytes@.len() <= bytes0.len(),
                     curr_len <= usize::MAX,
+        //@ tag tags.bookkeeping C13
+                    actual_tags@ =~= seen,
+                    required_tags@ =~= Set::<u16>::empty().difference(seen),
+        //@ tag tags.loop.decreases C02
                 decreases bytes@.len() + (if curr_len != bytes@.len() { 1nat } else { 0nat }),
         //@ entry
             let ghost bytes0 = bytes@;
+            let ghost mut seen: Set<u16> = Set::<u16>::empty();
             proof { lemma_slice_len_le_isize_max(bytes); crate::frame::lemma_tail_base(bytes0); }
+        //@ before letmutas_vec
+            let ghost req_left = required_tags@;
+        //@ before returnErr(zvt_builder::ZVTError::MissingRequiredTags
+        //@ tag tags.missing_names_all C13
+            proof {
+                assert(req_left =~= Set::<u16>::empty().difference(seen));
+                assert forall|i: int| 0 <= i < as_vec@.len() implies Set::<u16>::empty().contains((#[trigger] as_vec@[i]).0) && !seen.contains(as_vec@[i].0) by {
+                    assert(req_left.contains(as_vec@[i].0));
+                }
+                assert forall|t: u16| Set::<u16>::empty().contains(t) && !seen.contains(t) implies exists|i: int| 0 <= i < as_vec@.len() && (#[trigger] as_vec@[i]).0 == t by {
+                    assert(req_left.contains(t));
+                }
+            }
+        //@ tail
+        //@ tag tags.ok_only_if_all_mandatory C13
+            proof { assert(Set::<u16>::empty().subset_of(seen)); }
         //@ end
         proof fn law_dec_bounds(b: Seq<u8>) {}
         proof fn law_dec_frame(b: Seq<u8>, s: Seq<u8>) {}
